@@ -1,6 +1,7 @@
 mod c01;
 mod c02;
 mod c04;
+mod c17;
 mod coin;
 mod common;
 mod desc;
@@ -19,6 +20,7 @@ fn main() {
         "C01" => c01::run(&mut run),
         "C02" => c02::run(&mut run),
         "C04" => c04::run(&mut run),
+        "C17" => c17::run(&mut run),
         other => {
             eprintln!("vf-stark does not serve {other} yet");
             std::process::exit(2);
